@@ -61,6 +61,27 @@ def metropolis_sum(hs, ham):
     return tot
 
 
+def make_logged_target(cuqi, case):
+    """target whose log-density evaluations are counted (one per leaf: `_Leapfrog` evaluates the target once per step; periodic
+    leapfrog orbits revisit points exactly, so evaluations cannot be de-duplicated by value)"""
+    P = np.array(case["P"], float); b = np.array(case["b"], float)
+    wall, kind = case["wall"], case.get("wall_kind", "nan")
+    calls = {"n": 0, "last": None}
+
+    def logpdf(x):
+        x = np.asarray(x, dtype=float).ravel()
+        calls["n"] += 1
+        if wall is not None and x[0] > wall:
+            return WALLVAL[kind]
+        return float(b @ x - 0.5 * x @ (P @ x))
+
+    def grad(x):
+        x = np.asarray(x, dtype=float).ravel()
+        return b - P @ x
+
+    return cuqi.distribution.UserDefinedDistribution(dim=len(b), logpdf_func=logpdf, gradient_func=grad), calls
+
+
 def make_sampler(cuqi, iface, target, x, md, eps):
     with quiet():
         if iface == "exp":
@@ -124,7 +145,7 @@ def tree_stat_stream(ctx, cuqi, rng, n, step_n=0):
             hist["skipped_margin"] += 1; continue
         if c["wall"] is not None and c["x"][0] > c["wall"]:
             hist["start_behind_wall"] += 1; continue
-        target, calls = make_target(cuqi, c["P"], c["b"], c["wall"], c.get("wall_kind", "nan"))
+        target, calls = make_logged_target(cuqi, c)
         x = np.array(c["x"], float); r = np.array(c["r"], float)
         ham = float(c["ham"]); logu = float(c["logu"])
         sc = Script([], [], c["us"])
@@ -132,7 +153,7 @@ def tree_stat_stream(ctx, cuqi, rng, n, step_n=0):
             s = make_sampler(cuqi, iface, target, x, 5, c["eps"])
             with quiet(), np.errstate(all="ignore"):
                 g0 = np.asarray(target.gradient(x), float)
-                calls["n"] = 0
+                calls["n"] = 0; calls["last"] = None
                 with scripted(sc):
                     res = s._BuildTree(x.copy(), r.copy(), g0.copy(), ham, logu, c["v"], c["j"], c["eps"])
         except Exception as ex:
@@ -262,7 +283,7 @@ def _step_stat_compare(ctx, cuqi, jobs, outs):
         m_ones, m_exps, m_zeros, m_nans, m_na, m_margin = [t.strip() for t in mo.split("|")]
         if float(Fraction(m_margin)) < 1e-7:
             hist["skipped_margin"] += 1; continue
-        target, calls = make_target(cuqi, c["P"], c["b"], c["wall"], c.get("wall_kind", "nan"))
+        target, calls = make_logged_target(cuqi, c)
         sc = Script([c["r"]], [c["e"]], c["us"])
         raised = None
         try:
